@@ -8,7 +8,7 @@ FLAVOURS = ("asyncio", "trio", "threading")
 EXC_KINDS = ["LookupError", "ValueError", "KeyError", "CustomWithArgs", "StopAsyncIteration", "TimeoutError", "OSError",
              "AssertionError", "RuntimeError", "ExceptionGroup", "InvalidStateError", "FuturesCancelledError"]
 THREAD_ONLY_EXC = ["StopIteration", "AsyncioCancelledErrorAsException"]
-BASE_KINDS = ["SystemExit", "GeneratorExit", "CustomBase"]
+BASE_KINDS = ["SystemExit", "SystemExitZero", "SystemExitNone", "GeneratorExit", "CustomBase"]
 RETURN_KINDS = ["zero", "zerofloat", "false", "emptystr", "emptylist", "emptytuple", "emptybytes", "emptydict", "str", "one",
                 "object", "dict", "true"]
 
@@ -79,6 +79,8 @@ def harness_trouble(run):
     for e in run.of("harness-error"):
         return "harness error in scenario process: %s" % e.get("tb", e.get("exc"))
     for e in run.of("driver-error"):
+        if e.get("by") == "main" and "KeyboardInterrupt" in str(e.get("exc")):
+            continue  # the main thread of a scenario with the runtime in a thread of its own was interrupted on purpose
         return "driver error: %s" % e.get("exc")
     if not run.events:
         return "scenario process produced no events (exit %s): %s" % (run.exit_code, run.stacks[-800:])
